@@ -566,4 +566,392 @@ theorem sync_step {P : Progs} {s s' : State} {t : Tid} {th : Thread} {i : Instr}
               · intro hh; rw [hmt', hst', epa, epr]; exact h.held t th ht (hhtS ▸ hh)
               · intro _ _ _ _ _; exact ⟨hst', hmt'⟩
 
+
+/-! ### watcherSet tracking -/
+
+/-- the Close of watcher `w` has executed its `watcherSet.Remove` -/
+def Removed (s : State) (w : Wid) : Prop := ∃ t th, s.threads t = some th ∧ th.w = w ∧ th.a.sr = true
+
+structure WsetInv (s : State) : Prop where
+  left : ∀ n ∈ s.wset, ∃ w, nameOf s w = some n ∧ ¬ Removed s w
+  right : ∀ w n, nameOf s w = some n → ¬ Removed s w → n ∈ s.wset
+  uniq : ∀ w1 w2 n, nameOf s w1 = some n → nameOf s w2 = some n → ¬ Removed s w1 → ¬ Removed s w2 → w1 = w2
+
+theorem wset_init : WsetInv init := by
+  constructor <;> simp [init, nameOf]
+
+theorem removed_same {s s' : State} {t : Tid} {th th' : Thread} (ht : s.threads t = some th)
+    (hth : s'.threads = upd s.threads t (some th')) (hop : th'.op = th.op) (hsr : th'.a.sr = th.a.sr) (w : Wid) :
+    Removed s' w ↔ Removed s w := by
+  have hw : th'.w = th.w := by simp [Thread.w, hop]
+  constructor
+  · rintro ⟨t0, th0, h0, h1, h2⟩
+    rw [hth] at h0
+    rcases upd_some_cases h0 with ⟨rfl, rfl⟩ | ⟨ne, h0'⟩
+    · exact ⟨t0, th, ht, hw ▸ h1, hsr ▸ h2⟩
+    · exact ⟨t0, th0, h0', h1, h2⟩
+  · rintro ⟨t0, th0, h0, h1, h2⟩
+    by_cases e : t0 = t
+    · subst e; rw [ht] at h0; cases h0
+      exact ⟨t0, th', by rw [hth]; simp, hw.trans h1, hsr.trans h2⟩
+    · exact ⟨t0, th0, by rw [hth]; simp [upd, e]; exact h0, h1, h2⟩
+
+theorem removed_add {s s' : State} {t : Tid} {th th' : Thread} (ht : s.threads t = some th)
+    (hth : s'.threads = upd s.threads t (some th')) (hop : th'.op = th.op) (hsr : th'.a.sr = true) (w : Wid) :
+    Removed s' w ↔ Removed s w ∨ w = th.w := by
+  have hw : th'.w = th.w := by simp [Thread.w, hop]
+  constructor
+  · rintro ⟨t0, th0, h0, h1, h2⟩
+    rw [hth] at h0
+    rcases upd_some_cases h0 with ⟨rfl, rfl⟩ | ⟨ne, h0'⟩
+    · right; rw [← h1, hw]
+    · left; exact ⟨t0, th0, h0', h1, h2⟩
+  · rintro (⟨t0, th0, h0, h1, h2⟩ | rfl)
+    · by_cases e : t0 = t
+      · subst e; rw [ht] at h0; cases h0
+        exact ⟨t0, th', by rw [hth]; simp, hw.trans h1, hsr⟩
+      · exact ⟨t0, th0, by rw [hth]; simp [upd, e]; exact h0, h1, h2⟩
+    · exact ⟨t, th', by rw [hth]; simp, hw, hsr⟩
+
+theorem wset_spawn {P : Progs} {s : State} {t : Tid} (op : Op) (h : WsetInv s) (hn : s.threads t = none) :
+    WsetInv (setThread s t { op := op, code := P.of op }) := by
+  have hr : ∀ w, Removed (setThread s t { op := op, code := P.of op }) w ↔ Removed s w := by
+    intro w
+    constructor
+    · rintro ⟨t0, th0, h0, h1, h2⟩
+      rcases upd_some_cases h0 with ⟨rfl, rfl⟩ | ⟨ne, h0'⟩
+      · simp at h2
+      · exact ⟨t0, th0, h0', h1, h2⟩
+    · rintro ⟨t0, th0, h0, h1, h2⟩
+      have : t0 ≠ t := by intro e; subst e; rw [hn] at h0; cases h0
+      exact ⟨t0, th0, by simp [setThread, upd, this]; exact h0, h1, h2⟩
+  refine ⟨?_, ?_, ?_⟩
+  · intro n hn'
+    obtain ⟨w, h1, h2⟩ := h.left n hn'
+    exact ⟨w, h1, fun x => h2 ((hr w).1 x)⟩
+  · intro w n h1 h2; exact h.right w n h1 (fun x => h2 ((hr w).2 x))
+  · intro w1 w2 n h1 h2 h3 h4
+    exact h.uniq w1 w2 n h1 h2 (fun x => h3 ((hr w1).2 x)) (fun x => h4 ((hr w2).2 x))
+
+theorem wset_step {P : Progs} {s s' : State} {t : Tid} {th : Thread} {i : Instr} {rest : List Instr}
+    (hinv : Inv P s) (hfl : ∀ t th, s.threads t = some th → FOK th) (h : WsetInv s)
+    (ht : s.threads t = some th) (hc : th.code = i :: rest) (hs : step P s (.tau t) = some s') : WsetInv s' := by
+  obtain ⟨th', hth, hop, hrel⟩ := step_flags hinv ht hc hs
+  have hws := step_wset ht hc hs
+  by_cases hSR : i = .setRemove ∧ th.skip = false
+  · obtain ⟨rfl, hsk⟩ := hSR
+    have ha : th.a.cl = true ∧ th.a.sr = false ∧ th'.a.sr = true := by
+      rcases hrel with ⟨x, _⟩ | ⟨_, _, _, _, _, hi⟩ | ⟨_, _, ha, _⟩
+      · rw [hsk] at x; cases x
+      · rcases hi with hi | hi | hi <;> cases hi
+      · simp only [A.step] at ha; split at ha
+        · rename_i hx; simp only [Bool.and_eq_true, Bool.not_eq_true'] at hx
+          have := (Option.some.inj ha).symm
+          exact ⟨hx.1, hx.2, by rw [this]⟩
+        · cases ha
+    obtain ⟨hcl, hnsr, hsr'⟩ := ha
+    have hr := removed_add ht hth hop hsr'
+    obtain ⟨wt, hwt, hwset, hnames⟩ : ∃ wt, s.watchers th.w = some wt ∧
+        s'.wset = s.wset.filter (fun n => n ≠ wt.name) ∧ ∀ w, nameOf s' w = nameOf s w := by
+      rcases hws with x | x | x
+      · have := x.2.2 rfl; rw [hsk] at this; cases this
+      · cases x.1
+      · exact x.2.2
+    have hnm : nameOf s th.w = some wt.name := by simp [nameOf, hwt]
+    -- the closing watcher was still registered
+    have live : ¬ Removed s th.w := by
+      rintro ⟨t1, th1, h1, hw1, hs1⟩
+      have c1 := (hfl t1 th1 h1).2.2.1 hs1
+      have := hinv.clU t1 t th1 th h1 ht c1 hcl hw1
+      subst this; rw [ht] at h1; cases h1; rw [hnsr] at hs1; cases hs1
+    refine ⟨?_, ?_, ?_⟩
+    · intro n hn
+      rw [hwset] at hn
+      obtain ⟨hn1, hn2⟩ := List.mem_filter.1 hn
+      obtain ⟨w, h1, h2⟩ := h.left n hn1
+      refine ⟨w, by rw [hnames]; exact h1, ?_⟩
+      intro hx
+      rcases (hr w).1 hx with hx | hx
+      · exact h2 hx
+      · subst hx; rw [hnm] at h1; cases h1; simp at hn2
+    · intro w n h1 h2
+      rw [hnames] at h1
+      have nr : ¬ Removed s w := fun x => h2 ((hr w).2 (Or.inl x))
+      have ne : w ≠ th.w := fun x => h2 ((hr w).2 (Or.inr x))
+      rw [hwset]
+      refine List.mem_filter.2 ⟨h.right w n h1 nr, ?_⟩
+      simp only [ne_eq, decide_eq_true_eq]
+      intro e; subst e
+      exact ne (h.uniq w th.w _ h1 hnm nr live)
+    · intro w1 w2 n h1 h2 h3 h4
+      rw [hnames] at h1 h2
+      exact h.uniq w1 w2 n h1 h2 (fun x => h3 ((hr w1).2 (Or.inl x))) (fun x => h4 ((hr w2).2 (Or.inl x)))
+  · have hsr : th'.a.sr = th.a.sr := by
+      rcases hrel with ⟨_, _, ha, _⟩ | ⟨_, _, ha, _⟩ | ⟨hsk, _, ha, _⟩
+      · rw [ha]; exact (skipA_flags i th.a).2.2.1
+      · rw [ha]
+      · exact Astep_sr ha (fun e => hSR ⟨e, hsk⟩)
+    have hr := removed_same ht hth hop hsr
+    rcases hws with ⟨hwset, hnames, _⟩ | ⟨rfl, hsk, hnew, hwset, hnames⟩ | ⟨rfl, hsk, _⟩
+    · refine ⟨?_, ?_, ?_⟩
+      · intro n hn
+        rw [hwset] at hn
+        obtain ⟨w, h1, h2⟩ := h.left n hn
+        exact ⟨w, by rw [hnames]; exact h1, fun x => h2 ((hr w).1 x)⟩
+      · intro w n h1 h2
+        rw [hnames] at h1; rw [hwset]
+        exact h.right w n h1 (fun x => h2 ((hr w).2 x))
+      · intro w1 w2 n h1 h2 h3 h4
+        rw [hnames] at h1 h2
+        exact h.uniq w1 w2 n h1 h2 (fun x => h3 ((hr w1).2 x)) (fun x => h4 ((hr w2).2 x))
+    · -- a successful Watch: a fresh watcher id
+      have hfresh : nameOf s s.nextW = none := by simp [nameOf, hinv.fresh s.nextW (Nat.le_refl _)]
+      have nrm : ¬ Removed s s.nextW := by
+        rintro ⟨t1, th1, h1, hw1, hs1⟩
+        have c1 := (hfl t1 th1 h1).2.2.1 hs1
+        have := (hinv.th t1 th1 h1).cl c1
+        rw [hw1] at this
+        simp [closedOf, hinv.fresh s.nextW (Nat.le_refl _)] at this
+      have old : ∀ w n, nameOf s w = some n → w ≠ s.nextW := by
+        intro w n h1 e; subst e; rw [hfresh] at h1; cases h1
+      refine ⟨?_, ?_, ?_⟩
+      · intro n hn
+        rw [hwset] at hn
+        rcases List.mem_cons.1 hn with rfl | hn
+        · exact ⟨s.nextW, by rw [hnames]; simp, fun x => nrm ((hr _).1 x)⟩
+        · obtain ⟨w, h1, h2⟩ := h.left n hn
+          exact ⟨w, by rw [hnames]; simp [old w n h1]; exact h1, fun x => h2 ((hr w).1 x)⟩
+      · intro w n h1 h2
+        rw [hnames] at h1; rw [hwset]
+        by_cases e : w = s.nextW
+        · simp only [e, if_true, Option.some.injEq] at h1; subst h1; exact List.mem_cons_self
+        · simp only [e, if_false] at h1
+          exact List.mem_cons_of_mem _ (h.right w n h1 (fun x => h2 ((hr w).2 x)))
+      · intro w1 w2 n h1 h2 h3 h4
+        rw [hnames] at h1 h2
+        have n3 : ¬ Removed s w1 := fun x => h3 ((hr w1).2 x)
+        have n4 : ¬ Removed s w2 := fun x => h4 ((hr w2).2 x)
+        by_cases e1 : w1 = s.nextW <;> by_cases e2 : w2 = s.nextW
+        · rw [e1, e2]
+        · simp only [e1, if_true, Option.some.injEq] at h1
+          simp only [e2, if_false] at h2
+          subst h1; exact absurd (h.right w2 _ h2 n4) hnew
+        · simp only [e2, if_true, Option.some.injEq] at h2
+          simp only [e1, if_false] at h1
+          subst h2; exact absurd (h.right w1 _ h1 n3) hnew
+        · simp only [e1, if_false] at h1
+          simp only [e2, if_false] at h2
+          exact h.uniq w1 w2 n h1 h2 n3 n4
+    · exact absurd ⟨rfl, hsk⟩ hSR
+
+
+/-! ### service map bookkeeping -/
+
+structure SvcInv (s : State) : Prop where
+  keyIn : ∀ k e, s.routes k = some e → k ∈ e.desc.svcs
+  owned : ∀ n k, k ∈ s.svcRoutes n → ∃ e, s.routes k = some e ∧ e.desc.name = n
+  midP : ∀ t th, s.threads t = some th → th.a.mid = true →
+    ∀ k ∈ s.svcRoutes th.desc.name, k ∈ th.desc.svcs → k ∈ th.present
+  midOwn : ∀ t th, s.threads t = some th → th.a.mid = true →
+    ∀ k ∈ th.present, ∃ e, s.routes k = some e ∧ e.desc.name = th.desc.name
+
+theorem svc_init : SvcInv init := by
+  constructor <;> simp [init]
+
+theorem svc_spawn {P : Progs} {s : State} {t : Tid} (op : Op) (h : SvcInv s) (hn : s.threads t = none) :
+    SvcInv (setThread s t { op := op, code := P.of op }) := by
+  refine ⟨h.keyIn, h.owned, ?_, ?_⟩
+  · intro t0 th0 h0 hm
+    rcases upd_some_cases h0 with ⟨rfl, rfl⟩ | ⟨ne, h0'⟩
+    · simp at hm
+    · exact h.midP t0 th0 h0' hm
+  · intro t0 th0 h0 hm
+    rcases upd_some_cases h0 with ⟨rfl, rfl⟩ | ⟨ne, h0'⟩
+    · simp at hm
+    · exact h.midOwn t0 th0 h0' hm
+
+theorem svc_step {P : Progs} {s s' : State} {t : Tid} {th : Thread} {i : Instr} {rest : List Instr}
+    (hinv : Inv P s) (h : SvcInv s)
+    (ht : s.threads t = some th) (hc : th.code = i :: rest) (hs : step P s (.tau t) = some s') : SvcInv s' := by
+  obtain ⟨th', hth, hop, hrel⟩ := step_flags hinv ht hc hs
+  have hd : th'.desc = th.desc := by simp [Thread.desc, hop]
+  have hw : th'.w = th.w := by simp [Thread.w, hop]
+  have hth' : s'.threads t = some th' := by rw [hth]; simp
+  -- while `t` holds the table mutex no other thread is in the middle of an update
+  have nomid : th.a.ht = true → ∀ t0 th0, t0 ≠ t → s.threads t0 = some th0 → th0.a.mid = true → False := by
+    intro hh t0 th0 ne h0 hm
+    have e1 := (hinv.th t0 th0 h0).ht ((hinv.th t0 th0 h0).mid hm)
+    have e2 := (hinv.th t th ht).ht hh
+    rw [e1] at e2; cases e2; exact ne rfl
+  rcases step_routes ht hc hs with ⟨hr, hv, hsk3⟩ | ⟨rfl, hsk, hv, hr, th'', h1, hp⟩ | ⟨rfl, hsk, hr, hv⟩ |
+      ⟨rfl, hsk, wt, hwt, hr, hv⟩
+  · -- the service tables do not change
+    have hflags : th'.a.mid = th.a.mid ∧ th'.present = th.present := by
+      rcases hrel with ⟨_, _, ha, hp⟩ | ⟨_, _, ha, hp, _⟩ | ⟨hsk, _, ha, hp⟩
+      · exact ⟨by rw [ha]; exact (skipA_flags i th.a).2.2.2.1, hp⟩
+      · exact ⟨by rw [ha], hp⟩
+      · have n1 : i ≠ .sAdd := fun e => by have := hsk3 (Or.inl e); rw [hsk] at this; cases this
+        have n2 : i ≠ .sDel := fun e => by have := hsk3 (Or.inr (Or.inl e)); rw [hsk] at this; cases this
+        refine ⟨Astep_mid ha n1 n2, ?_⟩
+        rcases hp with hp | hp
+        · exact hp
+        · exact absurd hp n1
+    refine ⟨?_, ?_, ?_, ?_⟩
+    · intro k e he; rw [hr] at he; exact h.keyIn k e he
+    · intro n k hk; rw [hv] at hk; rw [hr]; exact h.owned n k hk
+    · intro t0 th0 h0 hm
+      rw [hth] at h0; rw [hv]
+      rcases upd_some_cases h0 with ⟨rfl, rfl⟩ | ⟨ne, h0'⟩
+      · rw [hd, hflags.2]; exact h.midP t0 th ht (hflags.1 ▸ hm)
+      · exact h.midP t0 th0 h0' hm
+    · intro t0 th0 h0 hm
+      rw [hth] at h0; rw [hr]
+      rcases upd_some_cases h0 with ⟨rfl, rfl⟩ | ⟨ne, h0'⟩
+      · rw [hd, hflags.2]; exact h.midOwn t0 th ht (hflags.1 ▸ hm)
+      · exact h.midOwn t0 th0 h0' hm
+  · -- add phase
+    rw [hth'] at h1; cases h1
+    have ha : th.a.ht = true ∧ th.a.mid = false := by
+      rcases hrel with ⟨x, _⟩ | ⟨_, _, _, _, _, hi⟩ | ⟨_, _, ha, _⟩
+      · rw [hsk] at x; cases x
+      · rcases hi with hi | hi | hi <;> cases hi
+      · simp only [A.step] at ha; split at ha
+        · rename_i hx; simp only [Bool.and_eq_true, Bool.not_eq_true'] at hx
+          exact ⟨hx.1.1.1.1.2, hx.2⟩
+        · cases ha
+    refine ⟨?_, ?_, ?_, ?_⟩
+    · intro k e he
+      rw [hr] at he
+      rcases svcAdd_some he with x | ⟨rfl, hk⟩
+      · exact h.keyIn k e x
+      · rcases svcAdd_sub _ _ _ _ hk with x | x
+        · cases x
+        · exact x
+    · intro n k hk
+      rw [hv] at hk
+      obtain ⟨e, h1, h2⟩ := h.owned n k hk
+      obtain ⟨e', h3, h4⟩ := svcAdd_keeps_name (ss := P.storeSame) (x := ⟨th.w, th.desc⟩) th.desc.svcs s.routes [] k e h1
+      exact ⟨e', by rw [hr]; exact h3, h4.trans h2⟩
+    · intro t0 th0 h0 hm k hk hks
+      rw [hth] at h0
+      rcases upd_some_cases h0 with ⟨rfl, rfl⟩ | ⟨ne, h0'⟩
+      · rw [hp]; rw [hv, hd] at hk; rw [hd] at hks
+        obtain ⟨e, h1, h2⟩ := h.owned _ k hk
+        exact svcAdd_present _ _ _ _ hks ⟨e, h1, h2⟩
+      · exact (nomid ha.1 t0 th0 ne h0' hm).elim
+    · intro t0 th0 h0 hm k hk
+      rw [hth] at h0
+      rcases upd_some_cases h0 with ⟨rfl, rfl⟩ | ⟨ne, h0'⟩
+      · rw [hp] at hk; rw [hr, hd]
+        rcases svcAdd_present_owned _ _ _ _ hk with x | x
+        · cases x
+        · exact x
+      · exact (nomid ha.1 t0 th0 ne h0' hm).elim
+  · -- delete phase
+    have ha : th.a.ht = true ∧ th.a.mid = true ∧ th'.a.mid = false := by
+      rcases hrel with ⟨x, _⟩ | ⟨_, _, _, _, _, hi⟩ | ⟨_, _, ha, _⟩
+      · rw [hsk] at x; cases x
+      · rcases hi with hi | hi | hi <;> cases hi
+      · simp only [A.step] at ha; split at ha
+        · rename_i hx; simp only [Bool.and_eq_true] at hx
+          have := (Option.some.inj ha).symm
+          exact ⟨hx.1, hx.2, by rw [this]⟩
+        · cases ha
+    obtain ⟨hht, hmid, hmid'⟩ := ha
+    have notDel : ∀ k, k ∈ th.present → k ∉ (s.svcRoutes th.desc.name).filter (fun k => !th.present.contains k) := by
+      intro k hk hx
+      have := (List.mem_filter.1 hx).2
+      simp [hk] at this
+    refine ⟨?_, ?_, ?_, ?_⟩
+    · intro k e he; rw [hr] at he; exact h.keyIn k e (svcDelete_some.1 he).1
+    · intro n k hk
+      rw [hv] at hk; rw [hr]
+      by_cases e : n = th.desc.name
+      · subst e
+        simp only [upd_same] at hk
+        obtain ⟨e, h1, h2⟩ := h.midOwn t th ht hmid k hk
+        exact ⟨e, svcDelete_some.2 ⟨h1, notDel k hk⟩, h2⟩
+      · rw [upd_other _ _ _ _ e] at hk
+        obtain ⟨e1, h1, h2⟩ := h.owned n k hk
+        refine ⟨e1, svcDelete_some.2 ⟨h1, ?_⟩, h2⟩
+        intro hx
+        obtain ⟨e2, h3, h4⟩ := h.owned _ k (List.mem_filter.1 hx).1
+        rw [h1] at h3; cases h3; exact e (h2.symm.trans h4)
+    · intro t0 th0 h0 hm
+      rw [hth] at h0
+      rcases upd_some_cases h0 with ⟨rfl, rfl⟩ | ⟨ne, h0'⟩
+      · rw [hmid'] at hm; cases hm
+      · exact (nomid hht t0 th0 ne h0' hm).elim
+    · intro t0 th0 h0 hm
+      rw [hth] at h0
+      rcases upd_some_cases h0 with ⟨rfl, rfl⟩ | ⟨ne, h0'⟩
+      · rw [hmid'] at hm; cases hm
+      · exact (nomid hht t0 th0 ne h0' hm).elim
+  · -- removeTarget
+    have ha : th.a.ht = true ∧ th'.a.mid = false := by
+      rcases hrel with ⟨x, _⟩ | ⟨_, _, _, _, _, hi⟩ | ⟨_, _, ha, _⟩
+      · rw [hsk] at x; cases x
+      · rcases hi with hi | hi | hi <;> cases hi
+      · simp only [A.step] at ha; split at ha
+        · rename_i hx; simp only [Bool.and_eq_true, Bool.not_eq_true'] at hx
+          have := (Option.some.inj ha).symm
+          exact ⟨hx.1, by rw [this]; exact hx.2⟩
+        · cases ha
+    obtain ⟨hht, hmid'⟩ := ha
+    refine ⟨?_, ?_, ?_, ?_⟩
+    · intro k e he; rw [hr] at he; exact h.keyIn k e (svcDelete_some.1 he).1
+    · intro n k hk
+      rw [hv] at hk; rw [hr]
+      by_cases e : n = wt.name
+      · subst e; simp only [upd_same] at hk; cases hk
+      · rw [upd_other _ _ _ _ e] at hk
+        obtain ⟨e1, h1, h2⟩ := h.owned n k hk
+        refine ⟨e1, svcDelete_some.2 ⟨h1, ?_⟩, h2⟩
+        intro hx
+        obtain ⟨e2, h3, h4⟩ := h.owned _ k hx
+        rw [h1] at h3; cases h3; exact e (h2.symm.trans h4)
+    · intro t0 th0 h0 hm
+      rw [hth] at h0
+      rcases upd_some_cases h0 with ⟨rfl, rfl⟩ | ⟨ne, h0'⟩
+      · rw [hmid'] at hm; cases hm
+      · exact (nomid hht t0 th0 ne h0' hm).elim
+    · intro t0 th0 h0 hm
+      rw [hth] at h0
+      rcases upd_some_cases h0 with ⟨rfl, rfl⟩ | ⟨ne, h0'⟩
+      · rw [hmid'] at hm; cases hm
+      · exact (nomid hht t0 th0 ne h0' hm).elim
+
+/-! ### the second invariant -/
+
+structure Inv2 (s : State) : Prop where
+  sync : SyncInv s
+  wset : WsetInv s
+  svc : SvcInv s
+
+theorem inv2_reachable {P : Progs} (hP : P.wf = true) (s : State)
+    (h : GB.LTS.Reachable (step P) init s) : Inv P s ∧ Inv2 s := by
+  induction h with
+  | init => exact ⟨inv_init P, sync_init, wset_init, svc_init⟩
+  | @step s s' l _ hs ih =>
+    obtain ⟨i1, i2⟩ := ih
+    refine ⟨inv_step hP i1 hs, ?_⟩
+    cases l with
+    | spawn t op =>
+      simp only [step] at hs
+      split at hs
+      · rename_i hc
+        simp only [Bool.and_eq_true, Option.isNone_iff_eq_none] at hc
+        cases hs
+        exact ⟨sync_spawn op i2.sync hc.1, wset_spawn op i2.wset hc.1, svc_spawn op i2.svc hc.1⟩
+      · cases hs
+    | tau t =>
+      cases hth : s.threads t with
+      | none => simp [step, hth] at hs
+      | some th =>
+        cases hcode : th.code with
+        | nil => simp [step, hth, hcode] at hs
+        | cons i rest =>
+          exact ⟨sync_step i1 i2.sync hth hcode hs, wset_step i1 i2.sync.fl i2.wset hth hcode hs,
+            svc_step i1 i2.svc hth hcode hs⟩
+
 end GB.C11
